@@ -25,6 +25,7 @@ var deviationSignature = map[string]string{
 	"proplist": "c11-property-list-index",
 	"gapbytes": "c11-gap-truncated-in-bytes",
 	"livekeys": "c11-stringify-live-keys",
+	"put":      "c11-members-created-with-put",
 }
 
 func init() {
@@ -32,6 +33,12 @@ func init() {
 		name := name
 		engine.RegisterSignature(sig, func(m *engine.Mismatch) bool { return explainedBy(m, name) })
 	}
+	engine.RegisterSignature("c11-reviver-cyclic-fatal", func(m *engine.Mismatch) bool {
+		// the child process executing the case died of Go's unrecoverable stack overflow
+		return m.Aux["op"] == "parse-cyclic-reviver" && strings.HasPrefix(m.Observed, "process died") &&
+			(strings.Contains(m.Aux["stderr"], "stack overflow") || strings.Contains(m.Aux["stderr"], "stack exceeds")) &&
+			m.Expected == "throw:RangeError"
+	})
 	// order family
 	engine.RegisterSignature("c11-parse-map-order", func(m *engine.Mismatch) bool {
 		// every one of the repeated parses produced the right members and the right
@@ -424,9 +431,28 @@ func byteGap(space rj.Value) (rj.Value, bool) {
 	return rj.Str(cut), true
 }
 
+// pairCutGap: part of the alternative model "fffd" — a string cannot end in half
+// a surrogate pair, so a gap whose 10th code unit is the high half of a pair is
+// cut before the pair (9 units) instead of after its first half.
+func pairCutGap(space rj.Value) (rj.Value, bool) {
+	var s []uint16
+	switch {
+	case space.Kind == rj.String:
+		s = space.S
+	case space.Kind == rj.Object && space.O.Class == "String":
+		s = space.O.Prim.S
+	default:
+		return space, false
+	}
+	if len(s) > 10 && s[9] >= 0xD800 && s[9] <= 0xDBFF && s[10] >= 0xDC00 && s[10] <= 0xDFFF {
+		return rj.Str(append([]uint16{}, s[:9]...)), true
+	}
+	return space, false
+}
+
 // explainStringify finds the smallest set of alternative models reproducing obs.
 func explainStringify(c *sCase, exp, obs string, ores rj.StringifyResult, olog []string) string {
-	render := func(useList, useGap bool) (string, string, bool) {
+	render := func(useList, useGap, useCut bool) (string, string, bool) {
 		h := &hostModel{}
 		mv := c.n.toModel(h)
 		rep, sp := c.rep.model(h), c.sp.model(h)
@@ -439,6 +465,13 @@ func explainStringify(c *sCase, exp, obs string, ores rj.StringifyResult, olog [
 		}
 		if useGap {
 			s, ok := byteGap(sp)
+			if !ok {
+				return "", "", false
+			}
+			sp = s
+		}
+		if useCut {
+			s, ok := pairCutGap(sp)
 			if !ok {
 				return "", "", false
 			}
@@ -463,18 +496,18 @@ func explainStringify(c *sCase, exp, obs string, ores rj.StringifyResult, olog [
 		}
 	}
 	type cand struct {
-		name          string
-		list, gap, ff bool
+		name               string
+		list, gap, ff, cut bool
 	}
 	for _, cd := range []cand{
-		{"fffd", false, false, true}, {"proplist", true, false, false}, {"gapbytes", false, true, false},
-		{"fffd+proplist", true, false, true}, {"fffd+gapbytes", false, true, true}, {"gapbytes+proplist", true, true, false},
-		{"fffd+gapbytes+proplist", true, true, true},
+		{"fffd", false, false, true, false}, {"fffd", false, false, true, true}, {"proplist", true, false, false, false}, {"gapbytes", false, true, false, false},
+		{"fffd+proplist", true, false, true, false}, {"fffd+gapbytes", false, true, true, false}, {"gapbytes+proplist", true, true, false, false},
+		{"fffd+gapbytes+proplist", true, true, true, false},
 	} {
 		s, o := exp, obs
-		if cd.list || cd.gap {
+		if cd.list || cd.gap || cd.cut {
 			var ok bool
-			if s, o, ok = render(cd.list, cd.gap); !ok {
+			if s, o, ok = render(cd.list, cd.gap, cd.cut); !ok {
 				continue
 			}
 		}
